@@ -517,7 +517,7 @@ def r0_parse(ctx):
     from rules.absint import AEval, A, C, CF
     r = Rule("C01.R0", "strings of the value grammar parse (and reduce) to exactly their pieces, in order",
              "`literal text verbatim and in order, every {{ var }} replaced by the supplied value, every <tag>...</tag> replaced by "
-             "the supplied component applied to its rendered children; nothing is dropped, duplicated, reordered`", floor=2)
+             "the supplied component applied to its rendered children; nothing is dropped, duplicated, reordered`", floor=3)
     ast = ctx.ast
     funcs = absint.file_funcs(ast, PV, impl_self="ParsedValue")
     new = ast.fn(PV, "new", impl_self="ParsedValue")
@@ -567,6 +567,34 @@ def r0_parse(ctx):
                 bad_reduce = "`%s`: after reduce() the pieces are %s, before %s" % (text, have2, want)
             elif not _shape_ok(after) and bad_reduce is None:
                 bad_reduce = "`%s`: reduce() leaves nested blocs / adjacent literals / empty strings: %s" % (text, absint.fmt(after)[:160])
+    # the strings of a translation file reach the parser through the serde visitor: whichever string callback a file
+    # format uses (serde_json / serde_yaml: visit_str, json5: visit_string, borrowed input: visit_borrowed_str) must
+    # hand the text to the same parser
+    B_ = lambda b: ("bool", b)  # noqa: E731
+    cbs = [f for f in ast.fns if f.file.endswith(PV) and not f.is_test() and f.body is not None and "ParsedValueSeed" in (f.impl_self or "")
+           and "Visitor" in (f.impl_trait or "") and f.name in ("visit_str", "visit_string", "visit_borrowed_str")]
+    if not any(f.name == "visit_str" for f in cbs):
+        r.missing("ParsedValueSeed::visit_str")
+    sample = [tw for k, tw in enumerate(_gen_values(False)) if k % 3 == 0] + [("a < /b> b", None), ("x <b>y< /b> z", None), ("plain", None), ("", None)]
+    for cb in cbs:
+        bad_cb = None
+        m = 0
+        for text, want in sample:
+            seed = CF("ParsedValueSeed", top_locale_name=A("locale"), in_range=B_(False), key_path=A("key_path"), key=A("key"), foreign_keys_paths=A("fkp"))
+            ev = mk()
+            ev.opaque_paths = re.compile(r"Error::custom$")
+            got = ev.run_fn(cb, [seed, S(text)])
+            ref = mk().run_fn(new, [S(text), A("key_path"), A("locale"), A("fkp")])
+            if isinstance(got, str) or isinstance(ref, str):
+                return r, False, "%s on %r (visitor callback %s)" % (got if isinstance(got, str) else ref, text, cb.name)
+            m += 1
+            same_ = got == ref or (got[0] == "ctor" and ref[0] == "ctor" and got[1] == ref[1] == "Err")
+            if not same_ and bad_cb is None:
+                bad_cb = "the string `%s` delivered through %s becomes %s, through the parser %s" % (text, cb.name, absint.fmt(got)[:200], absint.fmt(ref)[:200])
+        if bad_cb:
+            r.viol("R0:ParsedValueSeed::%s#same-parser" % cb.name, bad_cb, file=PV, line=cb.line)
+        else:
+            r.inst("ParsedValueSeed::" + cb.name, "%d strings: the callback hands the text to ParsedValue::new unchanged (the value is the parser's)" % m)
     if bad_parse:
         r.viol("R0:ParsedValue::new#pieces", bad_parse, file=PV, line=new.line)
     else:
